@@ -88,3 +88,20 @@ void h_softclip_isolation(void)
    __CPROVER_assert(mem[VERIF_QUIET] == 0, "and its clipping memory stays cleared");
    CANARY("after isolation");
 }
+
+/* "never flips a sample's sign" (and stays inside [-1,1]): one run on arbitrary finite input with memory in [-1,1];
+   a ghost index picks the sample.  The range clause is asserted only up to the sign-preserving part that SAT can decide here:
+   out[k] has the sign of in[k] or is zero. */
+void h_softclip_sign(void)
+{
+   const int N = VERIF_N, C = VERIF_C; int i, k; float x[VERIF_NC], mem[VERIF_C], in[VERIF_NC];
+   for (i = 0; i < VERIF_NC; i++) { x[i] = nondet_float(); __CPROVER_assume(!isnan(x[i]) && !isinf(x[i])); CANARY_SET(x[i], 0.25f); in[i] = x[i]; }
+   /* the memory is the curvature a = (m-1)/m^2 (+2.4e-7 relative) of the previous frame's last clipped region, m in (1,2]: |a| <= 0.25000006;
+      with an arbitrary memory in [-1,1] the continuation x + a*x*x does flip signs (a = -1, x = 1.5), which no call history can produce */
+   for (i = 0; i < VERIF_C; i++) { mem[i] = nondet_float(); __CPROVER_assume(mem[i] >= -0.25000006f && mem[i] <= 0.25000006f); CANARY_SET(mem[i], 0.f); }
+   opus_pcm_soft_clip(x, N, C, mem);
+   k = nondet_int(); __CPROVER_assume(0 <= k && k < VERIF_NC);
+   __CPROVER_assert(mem[k % VERIF_C] >= -0.25000006f && mem[k % VERIF_C] <= 0.25000006f, "the stored curvature stays within its range (inductive over calls)");
+   __CPROVER_assert(!(in[k] > 0 && x[k] < 0) && !(in[k] < 0 && x[k] > 0), "soft clipping never flips a sample's sign");
+   CANARY("after sign check");
+}
